@@ -183,14 +183,31 @@ func (ro *Roles) slotEnd(r *Report, rule string) {
 	// exactly one scheduling goroutine per start, not in a loop
 	nGo := 0
 	inLoop := false
-	allInstrs(ro.Start, func(in ssa.Instruction) {
-		if g, ok := in.(*ssa.Go); ok {
+	// (the go statement may sit in a small helper of the start function — `runJob(job, graph)`: it is then represented by the
+	// helper's call in the start function; a helper called from a loop, or holding the go in a loop, counts as "in a loop")
+	for _, host := range append([]*ssa.Function{ro.Start}, ro.helpersOf(ro.Start)...) {
+		host := host
+		allInstrs(host, func(in ssa.Instruction) {
+			g, ok := in.(*ssa.Go)
+			if !ok {
+				return
+			}
 			nGo++
-			if (PathQuery{Fn: ro.Start, Start: []ssa.Instruction{g}, Target: func(x ssa.Instruction) bool { return x == ssa.Instruction(g) }}).Find().Found {
+			if (PathQuery{Fn: host, Start: []ssa.Instruction{g}, Target: func(x ssa.Instruction) bool { return x == ssa.Instruction(g) }}).Find().Found {
 				inLoop = true
 			}
-		}
-	})
+			if host != ro.Start {
+				at := ro.liftTo(ro.Start, g)
+				if at == nil || (PathQuery{Fn: ro.Start, Start: []ssa.Instruction{at}, Target: func(x ssa.Instruction) bool { return x == at }}).Find().Found {
+					inLoop = true
+				}
+				// the helper is called once
+				if n := len(findCalls(ro.Start, func(_ string, c *ssa.CallCommon) bool { return c.StaticCallee() == host })); n != 1 {
+					inLoop = true
+				}
+			}
+		})
+	}
 	r.Check(nGo == 1 && !inLoop, rule+".one-goroutine", FuncName(ro.Start)+": one scheduling goroutine per start", w.Pos(ro.Start.Pos()), "exactly one go statement, not in a loop", fmt.Sprintf("%d go statements (in a loop=%v): a job's graph is scheduled more than once", nGo, inLoop))
 	// start refusal: the Canceled test dominates scheduler creation, the Start store and the go
 	var cancelIf *ifFact
@@ -204,6 +221,23 @@ func (ro *Roles) slotEnd(r *Report, rule string) {
 		r.Viol(rule+".start-refusal", FuncName(ro.Start)+": canceled jobs are refused", w.Pos(ro.Start.Pos()), "the start function does not test the job's Canceled flag: a job canceled while waiting (or replaced) is started")
 	} else {
 		bad := ""
+		critHelper := map[*ssa.Function]bool{}
+		for _, h := range ro.helpersOf(ro.Start) {
+			allInstrs(h, func(in ssa.Instruction) {
+				switch x := in.(type) {
+				case *ssa.Go:
+					critHelper[h] = true
+				case *ssa.Store:
+					if k, _, ok := ro.la.rootField(x.Addr); ok && k == "PipelineJob.Start" {
+						critHelper[h] = true
+					}
+				case *ssa.Call:
+					if f := x.Call.StaticCallee(); f != nil && f.Name() == "initScheduler" {
+						critHelper[h] = true
+					}
+				}
+			})
+		}
 		allInstrs(ro.Start, func(in ssa.Instruction) {
 			crit := false
 			switch x := in.(type) {
@@ -216,6 +250,8 @@ func (ro *Roles) slotEnd(r *Report, rule string) {
 			case *ssa.Call:
 				if f := x.Call.StaticCallee(); f != nil && f.Name() == "initScheduler" {
 					crit = true
+				} else if f != nil && critHelper[f] {
+					crit = true // a helper of the start function that holds the go / the Start store / the scheduler creation
 				}
 			}
 			if !crit {
